@@ -1,7 +1,7 @@
 (* Arith/EpochExtProofs.v — per-block rewards sum to the epoch totals, the
    halving schedule, and the two clamps of spec/src/consensus.rs. *)
 From Coq Require Import Lia.
-From CKB Require Import Arith.U Arith.UProofs Arith.EpochExt.
+From CKB Require Import Arith.U Arith.UProofs Arith.BitsProofs Arith.EpochExt.
 Local Open Scope N_scope.
 
 (* ---- rewards inside an epoch --------------------------------------------- *)
@@ -103,17 +103,55 @@ Proof.
 Qed.
 
 (* ---- halving schedule ------------------------------------------------------ *)
+Lemma primary_epoch_reward_value P n : p_halving_interval P <> 0 ->
+  primary_epoch_reward P n =
+  Some (if n / p_halving_interval P <? 64 then p_initial_primary_epoch_reward P / 2 ^ (n / p_halving_interval P) else 0).
+Proof.
+  intros HI. unfold primary_epoch_reward, div64. apply N.eqb_neq in HI. rewrite HI. cbn [bind].
+  unfold checked_shr64. set (h := n / p_halving_interval P). clearbody h.
+  destruct (N.ltb_spec h 64) as [H64|H64].
+  - assert (Hw : h <? W32 = true) by (apply N.ltb_lt; unfold W32; eval_pows; lia). rewrite Hw.
+    rewrite N.shiftr_div_pow2. reflexivity.
+  - destruct (h <? W32); reflexivity.
+Qed.
+
 Theorem halving_on_schedule P k n :
   0 < p_halving_interval P -> k < 64 ->
   k * p_halving_interval P <= n < (k + 1) * p_halving_interval P ->
   primary_epoch_reward P n = Some (p_initial_primary_epoch_reward P / 2 ^ k).
 Proof.
-  intros HI Hk [Hlo Hhi]. unfold primary_epoch_reward, div64.
-  destruct (N.eqb_spec (p_halving_interval P) 0); [lia|]. cbn [bind].
+  intros HI Hk [Hlo Hhi]. rewrite primary_epoch_reward_value by lia.
   assert (Hq : n / p_halving_interval P = k).
   { symmetry. apply (N.div_unique n _ k (n - k * p_halving_interval P)); lia. }
-  rewrite Hq. unfold shr64. apply N.ltb_lt in Hk. rewrite Hk.
-  rewrite N.shiftr_div_pow2. reflexivity.
+  rewrite Hq. apply N.ltb_lt in Hk. rewrite Hk. reflexivity.
+Qed.
+
+(* from the 64th halving on the repaired schedule issues nothing *)
+Theorem halving_after_64 P n :
+  0 < p_halving_interval P -> 64 * p_halving_interval P <= n ->
+  primary_epoch_reward P n = Some 0.
+Proof.
+  intros HI Hn. rewrite primary_epoch_reward_value by lia.
+  assert (64 <= n / p_halving_interval P) by (apply N.div_le_lower_bound; lia).
+  apply N.ltb_ge in H. rewrite H. reflexivity.
+Qed.
+
+(* the repaired function is total (for a non-zero interval, whatever the epoch
+   number) and agrees with the old one wherever the old one is defined *)
+Theorem primary_epoch_reward_total P n :
+  0 < p_halving_interval P -> exists r, primary_epoch_reward P n = Some r /\ r <= p_initial_primary_epoch_reward P.
+Proof.
+  intros HI. rewrite primary_epoch_reward_value by lia. eexists. split; [reflexivity|].
+  destruct (_ <? 64); [|lia]. apply N.div_le_upper_bound; [apply N.pow_nonzero; lia|].
+  pose proof (pow2_pos (n / p_halving_interval P)). nia.
+Qed.
+
+Theorem primary_epoch_reward_agrees_with_old P n r :
+  primary_epoch_reward_old P n = Some r -> primary_epoch_reward P n = Some r.
+Proof.
+  unfold primary_epoch_reward_old. intros H. apply bind_some in H as (h & Hh & H).
+  apply div64_some in Hh as [-> HI]. apply shr64_some in H as [-> H64].
+  rewrite primary_epoch_reward_value by assumption. apply N.ltb_lt in H64. rewrite H64. reflexivity.
 Qed.
 
 Lemma div_succ_not_multiple n I : I <> 0 -> (n + 1) mod I <> 0 -> (n + 1) / I = n / I.
@@ -132,8 +170,8 @@ Theorem next_reward_on_schedule P e R :
   primary_epoch_reward_of_next_epoch P e = Some R ->
   primary_epoch_reward P (ee_number e + 1) = Some R.
 Proof.
-  intros Hinv H. unfold primary_epoch_reward_of_next_epoch in H. unbind H.
-  apply add64_some in E as [-> _].
+  intros Hinv H. unfold primary_epoch_reward_of_next_epoch in H.
+  apply bind_some in H as (n1 & E & H). apply add64_some in E as [-> _].
   unfold is_multiple_of in H.
   destruct (N.eqb_spec (p_halving_interval P) 0) as [HI|HI].
   - destruct (N.eqb_spec (ee_number e + 1) 0); [lia|]. cbn [negb] in H.
@@ -141,9 +179,7 @@ Proof.
     rewrite HI in H. cbn in H. discriminate.
   - destruct (N.eqb_spec ((ee_number e + 1) mod p_halving_interval P) 0) as [Hm|Hm]; cbn [negb] in H.
     + exact H.
-    + rewrite Hinv in H. unfold primary_epoch_reward in *. unfold div64 in *.
-      apply N.eqb_neq in HI. rewrite HI in *. cbn [bind] in *.
-      apply N.eqb_neq in HI.
+    + rewrite Hinv in H. rewrite primary_epoch_reward_value in * by assumption.
       rewrite (div_succ_not_multiple _ _ HI Hm). exact H.
 Qed.
 
